@@ -259,6 +259,59 @@ where
     leaked_claim_case::<A, MA, UP, GA, DE, SH, MCS>(ctx);
     by_value_lowered_case::<A, MA, UP, GA, DE, SH, MCS>(ctx);
     by_value_replay_case::<A, MA, UP, GA, DE, SH, MCS>(ctx);
+    try_with_mut_unwind_case::<A, MA, UP, GA, DE, SH, MCS>(ctx);
+}
+
+/// C15, after the trace proper (direct oracle only): `alloc_try_with_mut` whose closure PANICS.  The slot for the `Result` is
+/// only prepared, never allocated: after the unwind no chunk's position has moved — at most a later, still EMPTY chunk has
+/// become the current one (when the `Result` did not fit the rest of the current chunk).
+fn try_with_mut_unwind_case<A, const MA: usize, const UP: bool, const GA: bool, const DE: bool, const SH: bool, const MCS: usize>(ctx: &mut Ctx)
+where
+    A: TestBase + BaseAllocator<Bool<GA>>,
+    MinimumAlignment<MA>: SupportedMinimumAlignment,
+{
+    use bump_scope::traits::BumpAllocatorTypedScope;
+    if !(ctx.prof.name == "prepared" || ctx.rng.chance(1, 12)) {
+        return;
+    }
+    BASE.with(|b| b.borrow_mut().reset(ctx.rng.next()));
+    let Ok(mut bump) = Bump::<A, S<MA, UP, GA, DE, SH, MCS>>::try_with_size_in(MCS, A::default()) else {
+        let _ = take_base_log();
+        return;
+    };
+    ctx.count("alloc_try_with_mut with a panicking closure");
+    // leave `rest` bytes in the first chunk: sometimes enough for the 1032-byte Result (fast path), mostly not (slow path)
+    let r = catch_unwind(AssertUnwindSafe(|| {
+        let cap = bump.stats().current_chunk().map(|c| c.remaining()).unwrap_or(0);
+        let rest = [0usize, 8, 40, 2000][ctx.rng.below(4) as usize].min(cap);
+        if cap > rest {
+            let _ = bump.as_mut_scope().alloc_slice_fill(cap - rest, 5u8);
+        }
+        let before: Vec<(usize, usize)> = bump.stats().small_to_big().map(|c| (c.chunk_start().as_ptr() as usize, c.bump_position().as_ptr() as usize)).collect();
+        let unwound = catch_unwind(AssertUnwindSafe(|| {
+            let _ = bump.as_mut_scope().alloc_try_with_mut(|| -> Result<[u64; 128], u64> { panic!("closure of alloc_try_with_mut panics") });
+        }))
+        .is_err();
+        let after: Vec<(usize, usize, usize)> = bump.stats().small_to_big().map(|c| (c.chunk_start().as_ptr() as usize, c.bump_position().as_ptr() as usize, c.allocated())).collect();
+        let cur_alloc = bump.stats().current_chunk().map(|c| c.allocated()).unwrap_or(0);
+        (rest, before, unwound, after, cur_alloc)
+    }));
+    if let Ok((rest, before, unwound, after, cur_alloc)) = r {
+        if !unwound {
+            ctx.oracle("C15", "TRY-WITH-MUT-UNWIND the panic of the closure did not propagate".into());
+        }
+        for (k, (start, pos)) in before.iter().enumerate() {
+            if after.get(k).map(|a| (a.0, a.1)) != Some((*start, *pos)) {
+                ctx.oracle("C15", format!("TRY-WITH-MUT-UNWIND alloc_try_with_mut unwound ({rest} bytes were left in the chunk): chunk {k} moved from position {pos:#x} to {:?}", after.get(k).map(|a| a.1)));
+            }
+        }
+        if after.len() > before.len() && cur_alloc != 0 && after.last().map(|a| a.2) != Some(0) {
+            ctx.oracle("C15", format!("TRY-WITH-MUT-UNWIND alloc_try_with_mut unwound ({rest} bytes were left in the chunk): the chunk that became current is not empty ({cur_alloc} bytes allocated)"));
+        }
+    }
+    let _ = take_base_log();
+    drop(bump);
+    let _ = take_base_log();
 }
 
 /// C03, after the trace proper (direct oracle only): inside a scope, a BY-VALUE copy of the scope allocates so much that it
